@@ -253,6 +253,11 @@ def wrappers(obj):
             wrappers = obj._sigtools__wrappers
         except AttributeError:
             return
-        for wrapper in wrappers:
-            yield wrapper
-        obj = obj.__wrapped__
+        wrapped = obj.__wrapped__
+        # functools.wraps copies the attributes of what it wraps: a
+        # hand-written decorator between two layers carries the list of the
+        # layer below, which is about to be listed itself
+        if getattr(wrapped, '_sigtools__wrappers', None) is not wrappers:
+            for wrapper in wrappers:
+                yield wrapper
+        obj = wrapped
